@@ -93,7 +93,9 @@ def claimed_outputs(ctx):
     for keep, verbose in ((False, False), (True, False), (False, True)):
         od = os.path.join(d, "out%d%d" % (keep, verbose))
         os.makedirs(od)
-        args = [common.RESYNTH, "--color", "never", "--out-dir", od] + (["-k"] if keep else []) + (["-v"] if verbose else []) + [rel for rel, _ in layout]
+        # (the output directory is named relatively on one run and absolutely on the others)
+        args = [common.RESYNTH, "--color", "never", "--out-dir", os.path.basename(od) if not keep and not verbose else od] + \
+            (["-k"] if keep else []) + (["-v"] if verbose else []) + [rel for rel, _ in layout]
         p = subprocess.run(args, cwd=d, stdout=subprocess.PIPE, stderr=subprocess.PIPE, timeout=120)
         so = p.stdout.decode("utf-8", "replace")
         ctx.count("several inputs, colliding output names")
@@ -114,8 +116,43 @@ def claimed_outputs(ctx):
                                          % (" -k" if keep else "", " -v" if verbose else "", " ".join(rel2 for rel2, _ in layout))})
 
 
+def named_outputs(ctx):
+    """-o names with and without an extension, relative and absolute: the file named in the `-> <out> ok` line is the
+    file that holds the packets, and an older file of that name does not survive"""
+    import os, subprocess
+    d = common.workdir("c01names")
+    mk = lambda n: "import ipv4;\n" + "".join("ipv4::udp::unicast(1.2.3.4:1, 1.2.3.5:2, \"%d-%d\");\n" % (n, i) for i in range(n))
+    ins = [("one.rsyn", 3), ("two.rsyn", 5), ("three.rsyn", 2), ("four.rsyn", 4)]
+    outs = ["capture", "sub/dir.d/trace.out", os.path.join(d, "abs.capture.bin"), "noext.v2"]
+    os.makedirs(os.path.join(d, "sub", "dir.d"))
+    for (rel, n), o in zip(ins, outs):
+        open(os.path.join(d, rel), "w").write(mk(n))
+        open(os.path.join(d, o), "wb").write(common.STALE_OUTPUT)          # an older, longer file of that name
+    args = [common.RESYNTH, "--color", "never"]
+    for o in outs:
+        args += ["-o", o]
+    p = subprocess.run(args + [rel for rel, _ in ins], cwd=d, stdout=subprocess.PIPE, stderr=subprocess.PIPE, timeout=120)
+    so = p.stdout.decode("utf-8", "replace")
+    ctx.count("explicit output names")
+    for (rel, n), o in zip(ins, outs):
+        line = "%s -> %s ok" % (rel, o)
+        rp = {"inputs": {r2: mk(n2) for r2, n2 in ins}, "outputs": outs, "stdout": so[-2000:], "named": True,
+              "how": "write the inputs, run resynth -o %s %s in that directory" % (" -o ".join(outs), " ".join(r2 for r2, _ in ins))}
+        if line not in so:
+            ctx.fail("named-output-line", "%s is not reported as `%s`" % (rel, line), rp)
+            continue
+        try:
+            ok, recs = common.pcap_records(open(os.path.join(d, o), "rb").read())
+        except OSError:
+            ok, recs = False, None
+        if not ok or len(recs) != n:
+            ctx.fail("named-output-lost", "%s is reported ok into %s, which %s" % (rel, o, "does not exist" if recs is None else
+                     "is not the capture of its %d packets (%s records readable)" % (n, len(recs) if ok else "no")), rp)
+
+
 def run(ctx):
     claimed_outputs(ctx)
+    named_outputs(ctx)
     from props.c02 import fix_paths
     import os
     n = 500 if ctx.thorough else 90
@@ -199,7 +236,7 @@ def run(ctx):
 def replay(ctx, rp):
     ctx.count("replay")
     if "inputs" in rp:
-        return claimed_outputs(ctx)
+        return named_outputs(ctx) if rp.get("named") else claimed_outputs(ctx)
     if rp.get("source_hex"):         # only the undecodable-line cases carry their source as bytes
         d, res = common.run_programs("c01r", {"replay": bytes.fromhex(rp["source_hex"])})
         if res["replay"].status == "ok":
